@@ -303,19 +303,20 @@ async def _assert_preconditions_async(
     preconditions: List[List[Contract]], resolved_kwargs: Mapping[str, Any]
 ) -> Optional[BaseException]:
     """Assert that the preconditions of an async function hold."""
-    exception = None  # type: Optional[BaseException]
+    # The violated contract of the last group tried, if any.
+    #
+    # The violation error is created only once we know that no group holds: creating it might be expensive
+    # (the values of the condition are re-computed for the message) and it involves user code (error factories,
+    # representations of the values) which is of no concern if a later group accepts the call.
+    violated_contract = None  # type: Optional[Contract]
 
     # Assert the preconditions in groups. This is necessary to implement "require else" logic when a class
     # weakens the preconditions of its base class.
 
     for group in preconditions:
-        exception = None
+        violated_contract = None
 
         for contract in group:
-            assert (
-                exception is None
-            ), "No exception as long as pre-condition group is satisfiable."
-
             condition_kwargs = select_condition_kwargs(
                 contract=contract, resolved_kwargs=resolved_kwargs
             )
@@ -330,16 +331,19 @@ async def _assert_preconditions_async(
                     check = check_or_coroutine
 
             if not_check(check=check, contract=contract):
-                exception = _create_violation_error(
-                    contract=contract, resolved_kwargs=resolved_kwargs
-                )
+                violated_contract = contract
                 break
 
         # The group of preconditions was satisfied, no need to check the other groups.
-        if exception is None:
+        if violated_contract is None:
             break
 
-    return exception
+    if violated_contract is None:
+        return None
+
+    return _create_violation_error(
+        contract=violated_contract, resolved_kwargs=resolved_kwargs
+    )
 
 
 def _assert_preconditions(
@@ -348,19 +352,17 @@ def _assert_preconditions(
     func: CallableT,
 ) -> Optional[BaseException]:
     """Assert that the preconditions of a sync function hold."""
-    exception = None  # type: Optional[BaseException]
+    # The violated contract of the last group tried, if any.
+    # (Please see the remark in ``_assert_preconditions_async``.)
+    violated_contract = None  # type: Optional[Contract]
 
     # Assert the preconditions in groups. This is necessary to implement "require else" logic when a class
     # weakens the preconditions of its base class.
 
     for group in preconditions:
-        exception = None
+        violated_contract = None
 
         for contract in group:
-            assert (
-                exception is None
-            ), "No exception as long as pre-condition group is satisfiable."
-
             condition_kwargs = select_condition_kwargs(
                 contract=contract, resolved_kwargs=resolved_kwargs
             )
@@ -382,16 +384,19 @@ def _assert_preconditions(
                 )
 
             if not_check(check=check, contract=contract):
-                exception = _create_violation_error(
-                    contract=contract, resolved_kwargs=resolved_kwargs
-                )
+                violated_contract = contract
                 break
 
         # The group of preconditions was satisfied, no need to check the other groups.
-        if exception is None:
+        if violated_contract is None:
             break
 
-    return exception
+    if violated_contract is None:
+        return None
+
+    return _create_violation_error(
+        contract=violated_contract, resolved_kwargs=resolved_kwargs
+    )
 
 
 async def _capture_old_async(
